@@ -57,6 +57,38 @@ var table = map[string]propInfo{
 		rule: "each case is one (S with generated comments, K with arbitrary flag subsets, validator / plan-modifier lists, injected fields) compiled and its run-time schema walked against M(S,K). " +
 			"Non-trivial: >= 2 different flags set below the root, or a multi-line comment. Distinct by hash of (S, K).",
 	},
+	"C12": {
+		quick:    budget{checks: 200, shards: 16},
+		thorough: budget{checks: 4000, shards: 16},
+		rule: "each case: (S, K with types B), a non-empty subset A of B, extra unrelated messages appended/prepended to the file and 0-2 extra unrelated files (before/after, imported or not); three plugin runs (B, A, A with extensions); function sets by go/ast, per-function source text compared byte for byte. " +
+			"Non-trivial: |B| > |A| >= 1 and a non-selected message is referenced by a selected one. Distinct by hash of the case.",
+	},
+	"C14": {
+		quick:    budget{checks: 60, shards: 16},
+		thorough: budget{checks: 1000, shards: 16},
+		rule: "each case: (S, K with many entries per configuration map); 6 process runs of the same request, 4 YAML re-renderings with shuffled keys and shuffled set-like lists, 2 command-line renderings with shuffled `+` lists and parameter order; all responses compared byte for byte. " +
+			"Non-trivial: K has >= 4 keys in at least two maps. Distinct by hash of (S, K).",
+		assumptions: []string{"a dependence on Go's randomised map iteration order is detected only probabilistically (it repeats an order with probability about 1/n! per run)"},
+	},
+	"C15": {
+		quick:    budget{checks: 120, shards: 16, inner: 150},
+		thorough: budget{checks: 2000, shards: 16, inner: 800},
+		rule: "each case: (S, K) and a permutation of message order and of field order within messages (oneof members stay contiguous, numbers/names/memberships kept). sort on (2/3 of the cases): the two responses are compared byte for byte. sort off: both are compiled into one binary and schemas and converter behaviour are compared on the same neutral inputs. " +
+			"Non-trivial: the permutation moves a commented field, a oneof block or a message. Distinct by hash of (S, K, permutation).",
+	},
+	"C16": {
+		quick:    budget{checks: 150, shards: 16},
+		thorough: budget{checks: 3000, shards: 16},
+		rule: "each case: (S, K restricted to the nine two-channel options); the generated file for all-YAML delivery is compared with a drawn split, the all-parameter split and every single-option split; conflicting YAML values under command-line values; sort=false over sort: true; the three failure cases (no types, unreadable config path, unparsable YAML). " +
+			"Non-trivial: >= 3 options set and the drawn split puts >= 1 on each channel. Distinct by hash of (S, K, split).",
+		assumptions: []string{"for 'sensitive fields' and 'custom duration type' the value is passed under both parameter spellings (code: sensitive / custom_duration, README: sensitive_fields / duration_custom_type); the property names options, not keys"},
+	},
+	"C18": {
+		quick:    budget{checks: 150, shards: 16},
+		thorough: budget{checks: 3000, shards: 16},
+		rule: "each case: (S, K) plus one unmappable field (timestamp/duration without configured time_type/duration_type, map with a non-string key, group) injected into a message at any depth below a selected type, singular / repeated / map / oneof member; three plugin runs (without the field, with it, with it excluded); function sets and per-function texts compared, stderr searched for a warning naming the skipped type. " +
+			"Non-trivial: the bad field is at depth >= 2 or behind a list/map/oneof edge. Distinct by hash of the case.",
+	},
 	"C19": {
 		quick:    budget{checks: 16, shards: 16, inner: 500},
 		thorough: budget{checks: 120, shards: 16, inner: 5000},
